@@ -73,3 +73,19 @@ Theorem C10_ignored_subresources_are_source :
   /\ List.length Gen.Constants.gen_ignored_pod_subresources = 8.
 Proof. exact ignored_subresources_are_source. Qed.
 Print Assumptions C10_ignored_subresources_are_source.
+
+(** ---- the request adapter (Model/Wire.v: api.RequestAttributes) ---- *)
+From PSA Require Import Model.Wire Proofs.WireFacts.
+(** the subresource that is judged is the request's requestSubResource string, as sent: nothing is trimmed,
+    split or normalised, so "status/x" or "proxy/" are not the ignored "status" or "proxy" *)
+Theorem C10_wire_subresource_exact : forall a dl, r_subresource (attributes_of a dl) = ar_request_subresource a.
+Proof. exact wire_subresource_exact. Qed.
+Print Assumptions C10_wire_subresource_exact.
+(** the old object of an UPDATE is decoded from oldObject, the new one from object *)
+Theorem C10_wire_old_object : forall a dl,
+  r_old (attributes_of a dl) = decode (ar_old_object a) /\ r_object (attributes_of a dl) = decode (ar_object a).
+Proof. exact wire_old_object. Qed.
+Print Assumptions C10_wire_old_object.
+Example C10_wire_not_ignored :
+  s_ignored_sub (r_subresource (attributes_of (AdmissionRequest "u" "" "pods" "status" "" "pods" "status/x" "p" "ns" "CREATE" "alice" "" [] RawAbsent RawAbsent) None)) = false.
+Proof. vm_compute. reflexivity. Qed.
